@@ -75,7 +75,13 @@ def run(crate, harnesses, timeout=1800, extra=None, jobs=None):
         import signal
         import tempfile
         fo = tempfile.TemporaryFile(mode="w+")
-        pr = subprocess.Popen(cmd, cwd=src, env=env, stdout=fo, stderr=subprocess.STDOUT, text=True, start_new_session=True)
+        def _limits():
+            # a CBMC that needs more than this is reported as undecided (never let one harness take the machine down)
+            import resource
+            cap = int(os.environ.get("VERIF_CBMC_MEM_GB", "18")) * (1 << 30)
+            resource.setrlimit(resource.RLIMIT_AS, (cap, cap))
+        pr = subprocess.Popen(cmd, cwd=src, env=env, stdout=fo, stderr=subprocess.STDOUT, text=True, start_new_session=True,
+                              preexec_fn=_limits)
         try:
             pr.wait(timeout=timeout)
         except subprocess.TimeoutExpired:
